@@ -352,6 +352,20 @@ class KernelModel:
                 if rhs.mentions(lambda a: a == ('sym', u.target['name'])) and \
                         not d.mentions(lambda a: a == ('sym', u.target['name'])):
                     delta = d
+                else:
+                    # `x = x + e` / `x = e + x` / `x = x - e` where e itself reads x (the
+                    # exponential class): the same update as `x += e` / `x -= e`
+                    r = peel(u.rhs)
+                    def is_t(y):
+                        y = peel(y)
+                        return y.get('k') == 'Path' and y.get('res') == 'local' and \
+                            y.get('local') == u.target['local']
+                    if r.get('k') == 'Binary' and r.get('op') == 'Add' and is_t(r['ch'][0]):
+                        delta = norm(r['ch'][1], u.env)
+                    elif r.get('k') == 'Binary' and r.get('op') == 'Add' and is_t(r['ch'][1]):
+                        delta = norm(r['ch'][0], u.env)
+                    elif r.get('k') == 'Binary' and r.get('op') == 'Sub' and is_t(r['ch'][0]):
+                        delta = -norm(r['ch'][1], u.env)
             is_rm = any(g == 'SOME(OLD)' or g.startswith('VALID(OLD') for g in u.guards)
             probe = delta if delta is not None else rhs
             mentions_old = probe.mentions(lambda a: isinstance(a, tuple) and len(a) == 2 and
